@@ -317,6 +317,30 @@ theorem const_total_power_one (lo hi : α) (n : Nat) (hn : 0 < n) (hlt : lo < hi
   field_simp
   ring
 
+/-- the same for a class whose `_get_bin_power_spectral_density` returns the density `1/(max − min)` directly
+(`BinPsd.constDensity`, the form proposed in notes/fixes/C18-5.diff): every bin power is width × density, total one -/
+theorem const_density_total_power_one (lo hi : α) (n : Nat) (hn : 0 < n) (hlt : lo < hi) :
+    sumList (powerList (fun _ _ => 1.0 / (hi - lo)) lo hi n) = 1 := by
+  have hne : hi - lo ≠ 0 := by linarith [sub_pos.mpr hlt]
+  have hmap : powerList (fun _ _ => 1.0 / (hi - lo)) lo hi n
+      = (bins lo hi n).map fun e => (fun x => x / (hi - lo)) e.2 - (fun x => x / (hi - lo)) e.1 := by
+    apply List.ext_getElem
+    · simp [powerList, psdList]
+    · intro i h1 h2
+      have hb : i < (bins lo hi n).length := by simpa using h2
+      simp only [powerList, psdList, List.getElem_map]
+      rw [bins_closed_form lo hi n i hb]
+      norm_num
+      field_simp
+      ring
+  rw [hmap]
+  unfold bins
+  have ht := sum_binEdges_telescope (fun x => x / (hi - lo)) (delta lo hi n) (firstLower lo (delta lo hi n)) n
+  beta_reduce at ht ⊢
+  rw [ht, firstLower_eq, delta_mul lo hi n hn]
+  field_simp
+  ring
+
 end Spectrum
 
 section Beam
@@ -1037,30 +1061,43 @@ theorem reported_eq (E : Ext α) (t : Cls) (hg : gettersOwnB t = true) (params :
     rw [this, h2]; rfl
   · cases this
 
+/-- fields `evaluate` reads -/
+def evalFields (k : EvalKind) : List String :=
+  match k with
+  | .gauss => ["_normalisation", "_mean", "_recip_stddev"]
+  | .constStep => ["_min_wavelength", "_max_wavelength"]
+  | _ => []
+
 /-- fields of the class formula that the energy density / binned spectrum reads from the captured state -/
-def snapFields (name : String) : List String :=
-  if name = "UniformEnergyDensity" then ["_energy_density"]
-  else if name = "ConstantBivariateGaussian" then ["_pulse_energy", "_pulse_length", "_stddev_x", "_stddev_y"]
-  else if name = "TrivariateGaussian" then ["_pulse_energy", "_mean_z", "_stddev_x", "_stddev_y", "_stddev_z"]
-  else if name = "GaussianBeamAxisymmetric" then
+def snapFields (t : Cls) : List String :=
+  if t.isSpectrum then
+    ["_min_wavelength", "_max_wavelength", "_bins"] ++
+      (match t.binPsd with
+       | .gaussErf => ["_mean", "_norm_cdf"]
+       | .trapezoid => evalFields t.evaluate
+       | _ => [])
+  else if t.name = "UniformEnergyDensity" then ["_energy_density"]
+  else if t.name = "ConstantBivariateGaussian" then ["_pulse_energy", "_pulse_length", "_stddev_x", "_stddev_y"]
+  else if t.name = "TrivariateGaussian" then ["_pulse_energy", "_mean_z", "_stddev_x", "_stddev_y", "_stddev_z"]
+  else if t.name = "GaussianBeamAxisymmetric" then
     ["_pulse_energy", "_pulse_length", "_laser_wavelength", "_waist_z", "_stddev_waist"]
-  else if name = "GaussianSpectrum" then ["_min_wavelength", "_max_wavelength", "_bins", "_mean", "_norm_cdf"]
-  else ["_min_wavelength", "_max_wavelength", "_bins"]
+  else []
 
 /-- fields `spectrum(x)` reads live -/
-def liveFields (name : String) : List String :=
-  if name = "GaussianSpectrum" then ["_normalisation", "_mean", "_recip_stddev"]
-  else ["_min_wavelength", "_max_wavelength"]
+def liveFields (t : Cls) : List String := evalFields t.evaluate
 
 def writtenBySome (t : Cls) (f : String) : Bool := t.setters.any fun s => s.writes.any fun w => w.1 == f
 
 def cacheOutputs : List String := ["_delta_wavelength", "_wavelengths", "_power_spectral_density"]
 
+def profileNames : List String :=
+  ["UniformEnergyDensity", "ConstantBivariateGaussian", "TrivariateGaussian", "GaussianBeamAxisymmetric"]
+
 /-- the class formulas only look at fields the rebuild captures, and everything observable is setter-controlled -/
 def observedOkB (t : Cls) : Bool :=
-  (t.isSpectrum == (t.name == "GaussianSpectrum" || t.name == "ConstantSpectrum")) &&
-  ((snapFields t.name).all fun f => decide (f ∈ t.rebuildReads) && writtenBySome t f) &&
-  ((liveFields t.name).all fun f => !t.isSpectrum || writtenBySome t f) &&
+  (t.isSpectrum || decide (t.name ∈ profileNames)) &&
+  ((snapFields t).all fun f => decide (f ∈ t.rebuildReads) && writtenBySome t f) &&
+  ((liveFields t).all fun f => writtenBySome t f) &&
   (t.geometryReads.all fun f => writtenBySome t f) &&
   (t.getters.all fun g =>
     if t.isSpectrum then writtenBySome t g.field || decide (g.field ∈ cacheOutputs)
@@ -1074,50 +1111,49 @@ structure ObsEq (E : Ext α) (t : Cls) (o1 o2 : Obj α) : Prop where
   getterList : t.isSpectrum = true → ∀ g, getterList E t o1 g = getterList E t o2 g
   evaluate : t.isSpectrum = true → ∀ x, specEvaluate E t o1 x = specEvaluate E t o2 x
 
+theorem evalFn_congr (E : Ext α) (t : Cls) (f1 f2 : String → α) (h : ∀ f ∈ evalFields t.evaluate, f1 f = f2 f) :
+    evalFn E t f1 = evalFn E t f2 := by
+  unfold evalFn
+  cases hk : t.evaluate <;> simp only [hk, evalFields] at h ⊢
+  · rw [h "_min_wavelength" (by simp), h "_max_wavelength" (by simp)]
+  · rw [h "_normalisation" (by simp), h "_mean" (by simp), h "_recip_stddev" (by simp)]
+
 theorem obs_congr (E : Ext α) (t : Cls) (hobs : observedOkB t = true) (o1 o2 : Obj α)
-    (hsnap : ∀ f ∈ snapFields t.name, o1.snap f = o2.snap f)
+    (hsnap : ∀ f ∈ snapFields t, o1.snap f = o2.snap f)
     (hfld : ∀ f, writtenBySome t f = true → o1.fields f = o2.fields f) : ObsEq E t o1 o2 := by
   simp only [observedOkB, Bool.and_eq_true, List.all_eq_true, Bool.or_eq_true, decide_eq_true_eq,
     Bool.not_eq_true', beq_iff_eq] at hobs
   obtain ⟨⟨⟨⟨h0, h1⟩, h2⟩, h3⟩, h4⟩ := hobs
-  -- spectrum classes: the three range fields are captured
-  have hspec : t.isSpectrum = true → (t.name = "GaussianSpectrum" ∨ t.name = "ConstantSpectrum") := by
-    intro hs; rw [hs] at h0
-    have := h0.symm
-    simpa using this
-  have hprof : t.isSpectrum = false → t.name ≠ "GaussianSpectrum" ∧ t.name ≠ "ConstantSpectrum" := by
-    intro hs; rw [hs] at h0
-    have := h0.symm
-    simpa using this
   have hrange : t.isSpectrum = true → o1.snap "_min_wavelength" = o2.snap "_min_wavelength" ∧
       o1.snap "_max_wavelength" = o2.snap "_max_wavelength" ∧ o1.snap "_bins" = o2.snap "_bins" := by
     intro hs
-    rcases hspec hs with hn | hn <;>
-      exact ⟨hsnap _ (by simp [snapFields, hn]), hsnap _ (by simp [snapFields, hn]), hsnap _ (by simp [snapFields, hn])⟩
+    exact ⟨hsnap _ (by simp [snapFields, hs]), hsnap _ (by simp [snapFields, hs]), hsnap _ (by simp [snapFields, hs])⟩
   have hbinpsd : t.isSpectrum = true → specBinPsd E t o1.snap = specBinPsd E t o2.snap := by
     intro hs
     obtain ⟨e1, e2, e3⟩ := hrange hs
     unfold specBinPsd
-    rcases hspec hs with hn | hn
-    · simp only [hn, if_true]
-      rw [hsnap "_mean" (by simp [snapFields, hn]), hsnap "_norm_cdf" (by simp [snapFields, hn]), e1, e2, e3]
-    · simp only [hn]
-      rw [e1, e2]
-      simp
+    cases hk : t.binPsd
+    · -- trapezoid
+      simp only
+      rw [evalFn_congr E t o1.snap o2.snap (fun f hf => hsnap f (by simp [snapFields, hs, hk, hf]))]
+    · simp only
+      rw [hsnap "_mean" (by simp [snapFields, hs, hk]), hsnap "_norm_cdf" (by simp [snapFields, hs, hk]), e1, e2, e3]
+    · simp only [e1, e2]
+    · rfl
+    · rfl
   constructor
   · intro hs x y z
-    obtain ⟨hn1, hn2⟩ := hprof hs
     simp only [energyDensity]
     split_ifs with n1 n2 n3 n4
-    · exact hsnap _ (by simp [snapFields, n1])
-    · rw [hsnap "_pulse_energy" (by simp [snapFields, n2]), hsnap "_pulse_length" (by simp [snapFields, n2]),
-        hsnap "_stddev_x" (by simp [snapFields, n2]), hsnap "_stddev_y" (by simp [snapFields, n2])]
-    · rw [hsnap "_pulse_energy" (by simp [snapFields, n3]), hsnap "_mean_z" (by simp [snapFields, n3]),
-        hsnap "_stddev_x" (by simp [snapFields, n3]), hsnap "_stddev_y" (by simp [snapFields, n3]),
-        hsnap "_stddev_z" (by simp [snapFields, n3])]
-    · rw [hsnap "_pulse_energy" (by simp [snapFields, n4]), hsnap "_pulse_length" (by simp [snapFields, n4]),
-        hsnap "_laser_wavelength" (by simp [snapFields, n4]), hsnap "_waist_z" (by simp [snapFields, n4]),
-        hsnap "_stddev_waist" (by simp [snapFields, n4])]
+    · exact hsnap _ (by simp [snapFields, hs, n1])
+    · rw [hsnap "_pulse_energy" (by simp [snapFields, hs, n2]), hsnap "_pulse_length" (by simp [snapFields, hs, n2]),
+        hsnap "_stddev_x" (by simp [snapFields, hs, n2]), hsnap "_stddev_y" (by simp [snapFields, hs, n2])]
+    · rw [hsnap "_pulse_energy" (by simp [snapFields, hs, n3]), hsnap "_mean_z" (by simp [snapFields, hs, n3]),
+        hsnap "_stddev_x" (by simp [snapFields, hs, n3]), hsnap "_stddev_y" (by simp [snapFields, hs, n3]),
+        hsnap "_stddev_z" (by simp [snapFields, hs, n3])]
+    · rw [hsnap "_pulse_energy" (by simp [snapFields, hs, n4]), hsnap "_pulse_length" (by simp [snapFields, hs, n4]),
+        hsnap "_laser_wavelength" (by simp [snapFields, hs, n4]), hsnap "_waist_z" (by simp [snapFields, hs, n4]),
+        hsnap "_stddev_waist" (by simp [snapFields, hs, n4])]
     · rfl
   · unfold Cherab.Laser.geometry
     split
@@ -1160,18 +1196,7 @@ theorem obs_congr (E : Ext α) (t : Cls) (hobs : observedOkB t = true) (o1 o2 : 
       simp only [Option.bind, specWavelengths, specPsd, e1, e2, e3, hbinpsd hs]
   · intro hs x
     unfold specEvaluate
-    have h2' : ∀ x ∈ liveFields t.name, writtenBySome t x = true := by
-      intro x hx
-      rcases h2 x hx with h | h
-      · rw [hs] at h; cases h
-      · exact h
-    rcases hspec hs with hn | hn
-    · simp only [hn, if_true]
-      rw [hfld _ (h2' "_normalisation" (by simp [liveFields, hn])), hfld _ (h2' "_mean" (by simp [liveFields, hn])),
-        hfld _ (h2' "_recip_stddev" (by simp [liveFields, hn]))]
-    · simp only [hn]
-      rw [hfld _ (h2' "_min_wavelength" (by simp [liveFields, hn])), hfld _ (h2' "_max_wavelength" (by simp [liveFields, hn]))]
-      simp
+    rw [evalFn_congr E t o1.fields o2.fields (fun f hf => hfld f (h2 f hf))]
 
 /-- **history_eq_fresh** — the clause "after any sequence of parameter changes the energy density, geometry, binned
 spectrum and reported parameters equal those of a freshly constructed object", for every class table that passes
